@@ -647,15 +647,35 @@ def register(I):
 
     @reg("<impl str>::bytes")
     def str_bytes(I, st, args, info):
-        out = []
+        """UTF-8 bytes; a symbolic character that may be non-ASCII forks on its encoded width (1-4 bytes)"""
+        paths = [(True, [])]
         for c in as_str_items(I, args[0], st):
             if isinstance(c, int):
-                out.extend(chr(c).encode("utf-8"))
-            elif is_sym(c) and not I.feasible(st.pc, z3.UGE(c, 0x80)):
-                out.append(z3.Extract(7, 0, c))          # provably ASCII here: one byte, the code point itself
-            else:
-                raise Unsupported("bytes of possibly non-ASCII symbolic text")
-        return IterV(out)
+                enc = list(chr(c).encode("utf-8"))
+                paths = [(g, bs + enc) for g, bs in paths]
+                continue
+            if not is_sym(c):
+                raise Unsupported("bytes of %r" % (c,))
+            ex = lambda hi, lo, x=c: z3.Extract(7, 0, z3.LShR(x, lo)) if hi is None else (z3.Extract(7, 0, z3.LShR(x, lo)) & hi)
+            cont = lambda lo, x=c: (z3.Extract(7, 0, z3.LShR(x, lo)) & 0x3F) | 0x80
+            classes = [
+                (z3.ULT(c, 0x80), [z3.Extract(7, 0, c)]),
+                (z3.And(z3.UGE(c, 0x80), z3.ULT(c, 0x800)), [(z3.Extract(7, 0, z3.LShR(c, 6)) & 0x1F) | 0xC0, cont(0)]),
+                (z3.And(z3.UGE(c, 0x800), z3.ULT(c, 0x10000)), [(z3.Extract(7, 0, z3.LShR(c, 12)) & 0x0F) | 0xE0, cont(6), cont(0)]),
+                (z3.UGE(c, 0x10000), [(z3.Extract(7, 0, z3.LShR(c, 18)) & 0x07) | 0xF0, cont(12), cont(6), cont(0)]),
+            ]
+            nxt = []
+            for g, bs in paths:
+                for cg, enc in classes:
+                    g2 = b_and(g, cg)
+                    if g2 is not False and I.feasible(st.pc, g2):
+                        nxt.append((g2, bs + enc))
+            if len(nxt) > 1024:
+                raise Unsupported("bytes of symbolic text: too many width combinations")
+            paths = nxt
+        if len(paths) == 1 and paths[0][0] is True:
+            return IterV(paths[0][1])
+        return [(st.fork(g) if g is not True else st, IterV(bs)) for g, bs in paths]
 
     @reg("<impl str>::contains")
     def str_contains(I, st, args, info):
